@@ -29,7 +29,7 @@ func newExec(w *World, ss *SpecSet, fn *ssa.Function, spec *FuncSpec) *Exec {
 		heapInfos: map[string]*heapInfo{}, obCount: map[string]int{}, assumed: map[string]bool{},
 		modset: map[string][]modLoc{}, closureIDs: map[string]*Closure{}, cardDone: map[string]bool{},
 		typeTags: map[string]int{}, boxAx: map[string]bool{}, usedSpecs: map[string]*FuncSpec{},
-		wsCache: map[*ssa.Function]map[string]bool{}}
+		wsCache: map[*ssa.Function]map[string]bool{}, globalByRef: map[string]*ssa.Global{}}
 	return e
 }
 
@@ -91,9 +91,13 @@ func verifyFunction(w *World, ss *SpecSet, fn *ssa.Function, spec *FuncSpec) (re
 		menv.vars[k] = v
 	}
 	for _, c := range spec.Modifies {
+		cond := "true"
+		if c.When != nil {
+			cond = menv.eval(c.When).T
+		}
 		for _, l := range c.Locs {
 			for _, hl := range menv.evalLoc(l) {
-				e.modset[hl.heap] = append(e.modset[hl.heap], modLoc{ref: hl.ref, cond: "true"})
+				e.modset[hl.heap] = append(e.modset[hl.heap], modLoc{ref: hl.ref, cond: cond, pred: hl.pred})
 			}
 		}
 	}
@@ -107,6 +111,17 @@ func verifyFunction(w *World, ss *SpecSet, fn *ssa.Function, spec *FuncSpec) (re
 		v := env.eval(c.E)
 		e.ctx.assume(v.T)
 		reqs = append(reqs, v.T)
+	}
+	// facts established by the package initialiser about never-reassigned globals
+	for _, g := range ss.Globals {
+		if fn.Pkg == nil || g.Pkg != fn.Pkg.Pkg.Path() {
+			continue
+		}
+		env := e.specEnv(fr, st, nil)
+		env.fr = nil
+		v := env.eval(g.E)
+		e.ctx.assume(v.T)
+		e.trust("package initialiser fact (assumed): " + g.Name + ": " + g.Src)
 	}
 	// vacuity: preconditions together with the background facts are satisfiable
 	{
